@@ -100,9 +100,13 @@ class HarnessError(Exception):
 class Pool:
     """hashseeds: one entry per worker.  Jobs carry an optional "h" (required hash seed)."""
 
-    def __init__(self, hashseeds: list[int], repo: str | None = None, extra_env: dict | None = None):
+    def __init__(self, hashseeds: list[int], repo: str | None = None, extra_env: dict | None = None,
+                 per_worker_env: list[dict] | None = None):
         self.repo = repo or os.environ.get("VERIF_REPO", "/repo")
-        self.workers = [Worker(i, h, self.repo, extra_env) for i, h in enumerate(hashseeds)]
+        self.workers = [
+            Worker(i, h, self.repo, {**(extra_env or {}), **((per_worker_env[i] if per_worker_env else None) or {})})
+            for i, h in enumerate(hashseeds)
+        ]
         self._next_id = 0
         t0 = time.monotonic()
         pending = set(range(len(self.workers)))
